@@ -119,3 +119,7 @@ fn inner_disease_enrichment<ID: AnnotationId>(
     }
     res
 }
+
+#[cfg(kani)]
+#[path = "/verif/kani/hypergeom_disease.rs"]
+mod verif_kani;
